@@ -53,6 +53,15 @@ def r11_1(ctx):
         ok = len(subj) == nconstr and all(Norm(None).key(c.args[0]) == Norm(None).key(ast.parse("stage.%s>=0" % attr, mode="eval").body) for c in subj)
         ctx.check(ok, "free %s adds %s" % (which, "exactly the constraint T>=0" if nconstr else "no constraint"), detail="extra or missing constraint on the horizon variable",
                   expected="%d constraint(s)%s" % (nconstr, " stage._T>=0" if nconstr else ""), found="; ".join(ast.unparse(c) for c in subj), fi=f, sample={"constraints": [ast.unparse(c) for c in subj]})
+        # the promotion steps run whenever the declaration is a FreeTime: no further condition inside the free branch
+        # (a try/except around the lookup of the user's own guess is not a condition on these steps)
+        cond = []
+        for c in setc + subj + [x for x in calls if is_call_to(x, "set_initial", "stage")]:
+            gs = [ast.unparse(t) for t, pol in sc.guards(c) if ast.unparse(t) not in ("phase == 1", "isinstance(stage.%s, FreeTime)" % attr)]
+            if gs:
+                cond.append("%s if %s" % (ast.unparse(c)[:40], " and ".join(gs)))
+        ctx.check(not cond, "free %s: variable, constraint and guess are unconditional" % which, detail="the promotion (in particular T>=0) depends on something else than the declaration being a FreeTime",
+                  expected="no condition inside the FreeTime branch", found="; ".join(cond), fi=f)
         ini = [c for c in calls if is_call_to(c, "set_initial", "stage")]
         initd = [st for st in free if isinstance(st, ast.Assign) and ast.unparse(st.value) == "stage.%s.T_init" % attr]
         ok = len(ini) == 1 and len(initd) == 1 and ast.unparse(ini[0].args[0]) == "stage.%s" % attr and ast.unparse(ini[0].args[1]) == ast.unparse(initd[0].targets[0]) \
@@ -70,6 +79,18 @@ def r11_1(ctx):
         after = [st for st in f.node.body if st is not b]
         rets2 = [Norm(None).key(r.value) for st in after for r in ast.walk(st) if isinstance(r, ast.Return) and r.value is not None]
         ctx.check(rets2 == ["self.eval(stage,%s)" % f.params[3]], "phase 2 evaluates the %s declaration through the common substitution" % which, detail="phase 2", expected="return self.eval(stage, expr)", found=rets2, fi=f)
+
+
+@rule("R11.9", min_instances=9, desc="FreeTime(guess) keeps the guess as given (t0 guesses may be negative); with free T/t0 the horizon variable sits in V: the dynamics still read every symbol from its own slot (pack order, shared with C01)")
+def r11_9(ctx):
+    from .c01 import check_pack_order
+    P = ctx.prog
+    f = P.own_method("FreeTime", "__init__")
+    writes = [st for st in walk_no_nested(f.node) if isinstance(st, (ast.Assign, ast.AugAssign))]
+    ok = len(writes) == 1 and isinstance(writes[0], ast.Assign) and ast.unparse(writes[0].targets[0]) == "self.T_init" and ast.unparse(writes[0].value) == f.params[1] and \
+        not [c for c in walk_no_nested(f.node) if isinstance(c, (ast.If, ast.Call))]
+    ctx.check(ok, "FreeTime stores the guess unchanged", detail="the starting value of the free horizon is not the guess (clamped / transformed)", expected="self.T_init = T_init", found="; ".join(ast.unparse(w) for w in writes), fi=f)
+    check_pack_order(ctx)
 
 
 HORIZON_NAMES = ("self.T", "self.t0", "stage._T", "stage._t0", "stage.T", "stage.t0", "self._T", "self._t0", "control_grid", "T_local", "t0_local", "self.tf", "stage.tf")
